@@ -1,0 +1,64 @@
+//! Verification hooks (compiled only with `--cfg bc_envelope_verif`).
+//!
+//! Records, per thread, the acquisition and release of the crate's global
+//! locks and `Once` cells so that an external model can be fed the lock
+//! programs the code actually executes. Nothing here changes behaviour; the
+//! event sink is only ever the innermost lock.
+#![cfg(bc_envelope_verif)]
+
+use std::cell::Cell;
+use std::sync::atomic::{AtomicBool, AtomicU64, Ordering};
+use std::sync::Mutex;
+
+/// One recorded event: (thread number, per-thread sequence number, kind, lock name).
+pub type Event = (u64, u64, &'static str, &'static str);
+
+static ENABLED: AtomicBool = AtomicBool::new(false);
+static NEXT_THREAD: AtomicU64 = AtomicU64::new(1);
+static SINK: Mutex<Vec<Event>> = Mutex::new(Vec::new());
+
+thread_local! {
+    static THREAD: Cell<u64> = const { Cell::new(0) };
+    static SEQ: Cell<u64> = const { Cell::new(0) };
+}
+
+/// Turns recording on or off.
+pub fn enable(on: bool) {
+    ENABLED.store(on, Ordering::SeqCst);
+}
+
+/// Records one event for the calling thread.
+pub fn emit(kind: &'static str, lock: &'static str) {
+    if !ENABLED.load(Ordering::SeqCst) {
+        return;
+    }
+    let t = THREAD.with(|c| {
+        if c.get() == 0 {
+            c.set(NEXT_THREAD.fetch_add(1, Ordering::SeqCst));
+        }
+        c.get()
+    });
+    let s = SEQ.with(|c| {
+        c.set(c.get() + 1);
+        c.get()
+    });
+    if let Ok(mut sink) = SINK.lock() {
+        sink.push((t, s, kind, lock));
+    }
+}
+
+/// Removes and returns everything recorded so far.
+pub fn drain() -> Vec<Event> {
+    SINK.lock().map(|mut s| std::mem::take(&mut *s)).unwrap_or_default()
+}
+
+/// Emits a release event for `lock` when dropped. Declare it *after* the guard
+/// it stands for, so that it is dropped (and the event recorded) while the
+/// lock is still held.
+pub struct ReleaseMark(pub &'static str);
+
+impl Drop for ReleaseMark {
+    fn drop(&mut self) {
+        emit("rel", self.0);
+    }
+}
